@@ -99,6 +99,20 @@ def run_case(case, rec):
                         rec.violation('no-match-error', f'Wordnet({s!r}, lang={lang!r}): raised={raised} although the selection is {want}')
                     rec.done([case['seed'], s, lang], nontrivial=nontrivial,
                              sample={'installed': installed, 'specifier': s, 'lang': lang, 'selected': want})
+            # the command line front end resolves specifiers the same way (python -m wn lexicons)
+            import subprocess
+            import sys
+            for s_ in r.sample(specs, 3):
+                lang = r.choice([None, 'en', 'fr'])
+                cmd = [sys.executable, '-m', 'wn', '-d', str(fdb.dir), 'lexicons', '--lexicon', s_] + (['--lang', lang] if lang else [])
+                pr = subprocess.run(cmd, capture_output=True, text=True, timeout=120)
+                got = {':'.join(line.split('\t')[:2]) for line in pr.stdout.splitlines() if '\t' in line}
+                want = set(mspec.select(installed, s_, lang))
+                rec.event('cli.compared')
+                rec.call('python -m wn lexicons')
+                if pr.returncode != 0 or got != want:
+                    rec.violation('cli-lexicons', f'python -m wn lexicons --lexicon {s_!r} --lang {lang!r} lists {sorted(got)} (rc {pr.returncode}), '
+                                  f'documented {sorted(want)} (installed {installed}); stderr {pr.stderr[-200:]}')
             # resolve, add another version of an id, resolve again (same process): a bare id must follow the newest one
             for step in range(2):
                 lid = r.choice(ids)
